@@ -24,3 +24,20 @@ else:
     s = s[:i] + '<!-- SEEDS-BEGIN -->\n' + table + '<!-- SEEDS-END -->\n'
 open(p, 'w').write(s)
 print(len(rows), "seeds")
+
+# ---- section 13.8: behaviour-preserving refactorings
+rows = []
+for f in sorted(glob.glob('/verif/benign/*/meta.json'), key=lambda x: int(x.split('/')[-2].split('-')[-1])):
+    m = json.load(open(f)); bid = f.split('/')[-2]
+    summ = (m.get('summary') or '').replace('|', '/').replace('\n', ' ')
+    if len(summ) > 200: summ = summ[:197] + '…'
+    first = m.get('first_evaluation')
+    cur = m.get('checks_run', {})
+    def fmt(cr):
+        return ', '.join(f"{c}: {'ALARM' if r['violation'] else 'quiet'}" for c, r in cr.items())
+    rows.append(f"| {bid} | {', '.join(m.get('files_touched', []))} | {summ} | {fmt(first) if first else fmt(cur)} | {fmt(cur) if first else ''} |")
+table = ("| id | files | change | first evaluation | after the translator was corrected |\n|---|---|---|---|---|\n" + "\n".join(rows) + "\n")
+s = open(p).read()
+s = re.sub(r'<!-- BENIGN-BEGIN -->.*?<!-- BENIGN-END -->', '<!-- BENIGN-BEGIN -->\n' + table + '<!-- BENIGN-END -->', s, flags=re.S)
+open(p, 'w').write(s)
+print(len(rows), "benign refactorings")
